@@ -74,9 +74,13 @@ def cases_functions(tier):
                         fmaps += [([0], None), ([1], None)]
                     for omf, cmf in fmaps:
                         for ms in ((1,) if quick else (0, 1, R)):
-                            yield "R%dJ%dK%dB%d/%s/est=%s%s/flt=%s,%s/min=%d" % (R, J, K, B, "".join("F" if f else "o" for f in mask), "+".join(est), emap, omf, cmf, ms), {
-                                "R": R, "J": J, "K": K, "B": B, "failed": mask, "est": est, "omap_est": emap, "cmap_est": None if not K or len(est) == 1 else [1] * K,
-                                "omap_flt": omf, "cmap_flt": cmf, "min_success": ms}
+                            c = {"R": R, "J": J, "K": K, "B": B, "failed": mask, "est": est, "omap_est": emap, "cmap_est": None if not K or len(est) == 1 else [1] * K,
+                                 "omap_flt": omf, "cmap_flt": cmf, "min_success": ms}
+                            cid = "R%dJ%dK%dB%d/%s/est=%s%s/flt=%s,%s/min=%d" % (R, J, K, B, "".join("F" if f else "o" for f in mask), "+".join(est), emap, omf, cmf, ms)
+                            yield cid, c
+                            if K and any(mask) and (not quick or (omf, cmf) == fmaps[0]):
+                                # the failure shows up in a constraint column only (all objectives of that realization are finite)
+                                yield cid + "/nan-in-constraint-only", dict(c, fail_in="constraint")
 
 
 def cases_stddev(tier):
@@ -118,11 +122,12 @@ def scn_functions(T, case):
     ow = T.real("objective_weights", (J,))
     nanrow = np.array(failed, dtype=bool)
     # the evaluator's table: batch row b, realization r.  Batch row 0 carries the failure mask, further rows succeed.
-    O = [T.real("O%d" % b, (R, J), nan=np.repeat(nanrow[:, None], J, axis=1) if b == 0 else None) for b in range(B)]
-    C = [T.real("C%d" % b, (R, K)) for b in range(B)] if K else None
-    if K and any(failed):
-        # a failure may also show up in a constraint column only: move the NaN of the first failed realization there
-        pass
+    in_constraint = case.get("fail_in") == "constraint"
+    O = [T.real("O%d" % b, (R, J), nan=np.repeat(nanrow[:, None], J, axis=1) if b == 0 and not in_constraint else None) for b in range(B)]
+    cnan = np.zeros((R, K), dtype=bool)
+    if K and in_constraint:
+        cnan[:, K - 1] = nanrow  # NaN in the last constraint column only
+    C = [T.real("C%d" % b, (R, K), nan=cnan if b == 0 and in_constraint else None) for b in range(B)] if K else None
     cfg = H.make_config(T, R, J, K, N, weights=cfgw, ow=ow, omap_est=case["omap_est"], cmap_est=case["cmap_est"], omap_flt=case["omap_flt"],
                         cmap_flt=case["cmap_flt"], min_success=case["min_success"])
     sev = H.ScriptedEvaluator(T, ch, lambda v, r, p, k: O[k // R][r], (lambda v, r, p, k: C[k // R][r]) if K else None)
@@ -178,7 +183,9 @@ def scn_functions(T, case):
                     objs.append((pre, want))
         allpre = T.all([p for p, _ in objs])
         T.prove("C01.weighted_objective_is_weighted_sum", T.implies(allpre, T.same(res.functions.weighted_objective, T.total([ow[j] * res.functions.objectives[j] for j in range(J)]))))
-        T.prove("C01.evaluations_are_the_evaluator_rows", T.same(res.evaluations.objectives, O[b]))
+        # reported per-realization values: the evaluator's rows, a failed realization NaN in every column
+        T.prove("C01.evaluations_are_the_evaluator_rows_with_failed_realizations_all_nan",
+                T.all([T.same(res.evaluations.objectives[r, :], O[b][r, :]) if not fl[r] else T.all([T.np.isnan(res.evaluations.objectives[r, j]) for j in range(J)]) for r in range(R)]))
 
 
 SCENARIOS = [
